@@ -39,6 +39,8 @@ def lower_convert(node: vy_ast.Call, ctx: VenomCodegenContext) -> IROperand:
     in_t = arg_node._metadata["type"]
     out_t = node.args[1]._metadata["type"].typedef
 
+    _check_input_type(in_t, out_t, arg_node)
+
     # For bytestrings we need pointer, for primitives we need value
     if isinstance(in_t, _BytestringT):
         arg_vv = Expr(arg_node, ctx).lower()
@@ -65,6 +67,42 @@ def lower_convert(node: vy_ast.Call, ctx: VenomCodegenContext) -> IROperand:
         return _to_flag(arg, in_t, out_t, ctx)
     else:  # pragma: nocover
         raise CompilerPanic(f"Unsupported conversion target: {out_t}")
+
+
+def _check_input_type(in_t, out_t, arg_node: vy_ast.VyperNode) -> None:
+    """
+    Reject conversions which the language does not define (same rules as
+    the `_input_types` tables of vyper/builtins/_convert.py).
+    """
+    if out_t == BoolT():
+        allowed: tuple = (IntegerT, DecimalT, BytesM_T, AddressT, BoolT, BytesT, StringT)
+    elif out_t == AddressT():
+        allowed = (BytesM_T, IntegerT, BytesT)
+    elif isinstance(out_t, IntegerT):
+        allowed = (IntegerT, DecimalT, BytesM_T, AddressT, BoolT, FlagT, BytesT)
+    elif isinstance(out_t, DecimalT):
+        allowed = (IntegerT, BoolT, BytesM_T, BytesT)
+    elif isinstance(out_t, BytesM_T):
+        allowed = (IntegerT, DecimalT, BytesM_T, AddressT, BytesT, BoolT, FlagT)
+    elif isinstance(out_t, FlagT):
+        allowed = (IntegerT,)
+    else:
+        return
+
+    ok = isinstance(in_t, allowed)
+    # flags convert to and from uint256 only
+    if isinstance(out_t, FlagT) and in_t != UINT256_T:
+        ok = False
+    if isinstance(in_t, FlagT):
+        if isinstance(out_t, IntegerT) and out_t != UINT256_T:
+            ok = False
+        if isinstance(out_t, BytesM_T) and out_t.m_bits != 256:
+            ok = False
+    # addresses are unsigned
+    if in_t == AddressT() and isinstance(out_t, IntegerT) and out_t.is_signed:
+        ok = False
+    if not ok:
+        raise TypeMismatch(f"Can't convert {in_t} to {out_t}", arg_node)
 
 
 def _get_folded_value(node: vy_ast.VyperNode):
